@@ -11,6 +11,11 @@ from vlib import gen
 from vlib.ref import spectrum as rs
 from vlib.runner import Skip, Violation, hyp, lentil_call
 
+# the check's own calls are issued with keywords or positionally in the documented order (vlib/callforms.py)
+from vlib import callforms as _cf
+lentil = _cf.proxy(lentil)
+detector = _cf.proxy(detector, "detector.")
+
 RULE = ("photon cubes (1-6 wavelengths, frames up to 12x12) with scalar / vector / Spectrum efficiencies in any "
         "wavelength unit; square colour patterns of size 1-4 with drawn content, image sizes that are (different) "
         "multiples of the pattern, oversampling 1-6; electron frames incl. negatives, values above saturation and "
